@@ -431,26 +431,16 @@ namespace detail
 	{
 		GLM_STATIC_ASSERT(std::numeric_limits<genType>::is_iec559 || GLM_CONFIG_UNRESTRICTED_FLOAT, "'roundEven' only accept floating-point inputs");
 
-		int Integer = static_cast<int>(x);
-		genType IntegerPart = static_cast<genType>(Integer);
-		genType FractionalPart = fract(x);
+		genType const FractionalPart = fract(x);
 
-		if(FractionalPart > static_cast<genType>(0.5) || FractionalPart < static_cast<genType>(0.5))
-		{
+		// not a tie; infinities and NaN, whose fractional part is NaN, are returned unchanged by round
+		if(!(FractionalPart == static_cast<genType>(0.5)))
 			return round(x);
-		}
-		else if((Integer % 2) == 0)
-		{
-			return IntegerPart;
-		}
-		else if(x <= static_cast<genType>(0)) // Work around...
-		{
-			return IntegerPart - static_cast<genType>(1);
-		}
-		else
-		{
-			return IntegerPart + static_cast<genType>(1);
-		}
+
+		// tie: pick the even neighbour without converting to int (static_cast<int>(x) is undefined beyond the int range)
+		genType const Floor = x - FractionalPart;
+		genType const Half = Floor * static_cast<genType>(0.5);
+		return floor(Half) == Half ? Floor : Floor + static_cast<genType>(1);
 		//else // Bug on MinGW 4.5.2
 		//{
 		//	return mix(IntegerPart + genType(-1), IntegerPart + genType(1), x <= genType(0));
